@@ -77,7 +77,7 @@ var allSizeModes = []string{"none", "fixed", "map", "fixedmap"}
 func specs() map[string]propSpec {
 	m := map[string]propSpec{}
 	full := GenOpts{MaxN: 8, Kinds: connectedKinds, SelfLoops: true, MultiComp: true,
-		P1: allP1, P2: allP2, P4: sizeAwareP4, P5: basicP5, SizeModes: allSizeModes, VirtualOut: []bool{false, true}, P3Noop: 12}
+		P1: allP1, P2: allP2, P4: sizeAwareP4, P5: basicP5, SizeModes: allSizeModes, VirtualOut: []bool{false, true}, P3Noop: 12, AdvIDs: 8}
 	if v := os.Getenv("VH_MAXN"); v != "" { // diagnosis only
 		fmt.Sscan(v, &full.MaxN)
 	}
@@ -135,7 +135,15 @@ func specs() map[string]propSpec {
 
 	o = full
 	o.P4 = []string{"sink", "valign", "packright", "bk"}
-	m["C08"] = propSpec{opts: o, gen: baseGen(o), oracle: func(c Case, r *Rng) []string {
+	oBig := o
+	oBig.MaxN, oBig.Kinds, oBig.MultiComp = 20, []string{"dag", "multidag", "slack", "layered", "longdag"}, false
+	m["C08"] = propSpec{opts: o, gen: func(r *Rng) Case {
+		if r.Bool(35) {
+			// larger DAGs with several sources: ties (equal slack, equal medians) that an ordering by name would break
+			return genCase(r, oBig)
+		}
+		return genCase(r, o)
+	}, oracle: func(c Case, r *Rng) []string {
 		out, err := runLayout(c)
 		if err != nil {
 			return []string{"Layout did not return: " + firstLines(err.Error(), 12)}
@@ -235,6 +243,7 @@ func specs() map[string]propSpec {
 	o = full
 	o.P4 = []string{"valign"}
 	o.P5 = []string{"straight"}
+	o.AdvIDs = 30 // which edges are reversed must not depend on what the nodes are called
 	m["C14"] = propSpec{opts: o, gen: baseGen(o), oracle: layoutThen(oracleC14), rule: "random cyclic and acyclic multigraphs x {greedy, dfs}"}
 
 	o = GenOpts{MaxN: 9, Kinds: connectedKinds, P1: allP1, P2: allP2, P4: []string{"valign", "packright"}, P5: basicP5,
@@ -249,6 +258,12 @@ func specs() map[string]propSpec {
 			return []string{"Layout did not return: " + firstLines(err.Error(), 12)}
 		}
 		k := r.Intn(10) - 3
+		if r.Bool(25) { // very small and very large units: an absolute threshold anywhere shows only there
+			k = 20 + r.Intn(25)
+			if r.Bool(50) {
+				k = -k
+			}
+		}
 		f := 1.0
 		for i := 0; i < k; i++ {
 			f *= 2
@@ -261,7 +276,7 @@ func specs() map[string]propSpec {
 			msgs = append(msgs, fmt.Sprintf("scale factor %v", f))
 		}
 		return msgs
-	}, rule: "random multigraphs x sizes x spacings x scale 2^k, k in -3..6"}
+	}, rule: "random multigraphs x sizes x spacings x scale 2^k, k in -3..6, a quarter with |k| in 20..44"}
 	o = full
 	o.P4 = []string{"sink", "valign", "packright", "bk", "ns"}
 	o.MaxN = 7
